@@ -6,6 +6,8 @@ use std::hash::{Hash, Hasher};
 use std::io::{Cursor, Write};
 use surf_n_term::decoder::{Decoder, TTYCommandDecoder};
 use surf_n_term::encoder::{ColorDepth, Encoder, TTYEncoder};
+use surf_n_term::view::{Text, ViewContext};
+use surf_n_term::{Position, Size, Surface, SurfaceOwned, TerminalWriter};
 use surf_n_term::{
     Cell, CellWrite, Color, Face, FaceAttrs, FaceModify, TerminalCaps, TerminalCommand, UnderlineStyle, RGBA,
 };
@@ -335,24 +337,62 @@ pub fn run(input: &Value) -> Case {
             let bytes = hist_bytes(&input["hist"]);
             let b2 = bytes.clone();
             let cuts2 = cuts.clone();
+            let text_len: usize = input["hist"].as_array().map(|a| a.iter().map(|h| h["text"].as_array().map(|t| t.len()).unwrap_or(0)).sum()).unwrap_or(0);
+            let sink = input["sink"].as_u64().unwrap_or(0);
             let cells = catch(move || {
-                let mut rec = Recorder { face: f0, wraps: false, cells: vec![] };
                 let mut short = false;
-                {
-                    let mut w = rec.by_ref().tty_writer();
+                // Write::write must report the whole chunk as consumed: a wrong count becomes a marker cell
+                let mut feed = |w: &mut dyn Write| {
                     for c in chunks(&b2, &cuts2) {
-                        // Write::write must report the whole chunk as consumed (a short count would make
-                        // write_all re-send bytes): a wrong count is made visible as an extra cell
                         match w.write(c) {
                             Ok(n) if n == c.len() => {}
                             _ => short = true,
                         }
                     }
-                }
+                };
+                let mut cells: Vec<(u32, Face)> = match sink {
+                    1 => {
+                        // view::Text as the cell writer
+                        let mut text = Text::new();
+                        text.set_face(f0);
+                        feed(&mut text.by_ref().tty_writer());
+                        text.cells()
+                            .iter()
+                            .map(|cell| match cell.kind() {
+                                surf_n_term::render::CellKind::Char(c) => (*c as u32, cell.face()),
+                                _ => (0x11_0000, cell.face()),
+                            })
+                            .collect()
+                    }
+                    2 => {
+                        // TerminalWriter over a one-row surface wide enough for the whole text
+                        let n = text_len;
+                        let mut surf: SurfaceOwned<Cell> = SurfaceOwned::new(Size { height: 1, width: n + 4 });
+                        {
+                            let mut w = TerminalWriter::new(ViewContext::dummy(), &mut surf);
+                            w.set_face(f0);
+                            feed(&mut CellWrite::by_ref(&mut w).tty_writer());
+                        }
+                        (0..n)
+                            .map(|col| {
+                                let cell = surf.get(Position { row: 0, col }).cloned().unwrap_or_default();
+                                match cell.kind() {
+                                    surf_n_term::render::CellKind::Char(c) => (*c as u32, cell.face()),
+                                    _ => (0x11_0000, cell.face()),
+                                }
+                            })
+                            .collect()
+                    }
+                    _ => {
+                        let mut rec = Recorder { face: f0, wraps: false, cells: vec![] };
+                        feed(&mut rec.by_ref().tty_writer());
+                        rec.cells
+                    }
+                };
                 if short {
-                    rec.cells.push((0x11_0002, Face::default()));
+                    cells.push((0x11_0002, Face::default()));
                 }
-                rec.cells
+                cells
             })
             .unwrap_or_else(|| vec![(0x11_0001, Face::default())]);
             j["impl"] = json!(cells.iter().map(|(c, f)| json!([c, j_face(f)])).collect::<Vec<_>>());
@@ -364,6 +404,7 @@ pub fn run(input: &Value) -> Case {
             if input["malformed"].as_bool().unwrap_or(false) {
                 tags.push("malformed".into());
             }
+            tags.push(format!("sink={}", ["recorder", "Text", "TerminalWriter"][(sink as usize).min(2)]));
             Case {
                 coq: format!(
                     "KWrite {} {} {} {} {}",
@@ -527,16 +568,29 @@ fn all_cuts(len: usize, out: &mut Vec<Vec<usize>>, pairs: bool) {
 }
 
 fn rand_cuts(rng: &mut Rng, len: usize) -> Vec<usize> {
-    match rng.below(4) {
+    match rng.below(5) {
         0 => vec![],
         1 => vec![1; len],
-        _ => {
+        2 => {
+            // short reads (0..4 bytes, empty ones included) over the WHOLE stream
             let mut v = vec![];
             let mut left = len;
-            while left > 0 && v.len() < 12 {
+            while left > 0 {
                 let k = (rng.below(5) as usize).min(left);
                 v.push(k);
                 left -= k;
+            }
+            v
+        }
+        _ => {
+            // 1..8 cut points anywhere in the stream
+            let mut pts: Vec<usize> = (0..1 + rng.below(8)).map(|_| rng.below(len as u64 + 1) as usize).collect();
+            pts.sort();
+            let mut v = vec![];
+            let mut at = 0;
+            for p in pts {
+                v.push(p - at);
+                at = p;
             }
             v
         }
@@ -595,7 +649,7 @@ fn g_text(rng: &mut Rng) -> Vec<u64> {
         .collect()
 }
 
-fn g_hist(rng: &mut Rng, malformed: bool) -> (Value, bool) {
+fn g_hist(rng: &mut Rng, malformed: bool, ascii: bool) -> (Value, bool) {
     let n = 1 + rng.below(10);
     let mut items = vec![];
     let mut known = false;
@@ -614,7 +668,8 @@ fn g_hist(rng: &mut Rng, malformed: bool) -> (Value, bool) {
         }
         items.push(json!({"sgr": parts.join(";")}));
         if rng.chance(4, 5) {
-            items.push(json!({"text": g_text(rng)}));
+            let t: Vec<u64> = if ascii { (0..1 + rng.below(3)).map(|_| 33 + rng.below(94)).collect() } else { g_text(rng) };
+            items.push(json!({"text": t}));
         }
     }
     (Value::Array(items), known)
@@ -705,7 +760,10 @@ pub fn generate(rng: &mut Rng, n: usize, tier: &str) -> Vec<Value> {
                         _ => json!({"c": g_text(rng)[0]}),
                     });
                 }
-                v.push(json!({"kind": "stream", "cmds": cmds, "cuts": rand_cuts(rng, 60)}));
+                // cuts over the real length of what the encoder writes
+                let probe = run(&json!({"kind": "stream", "cmds": cmds, "cuts": []}));
+                let len = probe.json["impl"]["bytes"].as_str().map(|b| b.len()).unwrap_or(60);
+                v.push(json!({"kind": "stream", "cmds": cmds, "cuts": rand_cuts(rng, len)}));
             }
             12 => {
                 // a random character through the encoder (27 excluded: not in the property's domain)
@@ -737,21 +795,23 @@ pub fn generate(rng: &mut Rng, n: usize, tier: &str) -> Vec<Value> {
                 v.push(json!({"kind": "dec", "bytes": bytes, "cuts": rand_cuts(rng, len)}));
             }
             4 => {
-                let (hist, known) = g_hist(rng, true);
+                let sink = rng.below(4).min(2) % 3;
+                let (hist, known) = g_hist(rng, true, sink == 2);
                 let len = hist_bytes(&hist).len();
-                let mut c = json!({"kind": "write", "f0": g_face(rng), "hist": hist, "cuts": rand_cuts(rng, len), "malformed": true});
+                let mut c = json!({"kind": "write", "f0": g_face(rng), "hist": hist, "cuts": rand_cuts(rng, len), "malformed": true, "sink": if sink == 2 { 2 } else { sink % 2 }});
                 if known {
-                    c["inexpressible"] = json!(true);
+                    c["known_class"] = json!(["sgr-inexpressible"]);
                 }
                 v.push(c);
             }
             _ => {
-                let (hist, known) = g_hist(rng, false);
+                let sink = match rng.below(6) { 0 => 1, 1 => 2, _ => 0 };
+                let (hist, known) = g_hist(rng, false, sink == 2);
                 let len = hist_bytes(&hist).len();
                 let f0 = if rng.chance(1, 2) { json!({"fg": null, "bg": null, "ul": 0, "flags": 0}) } else { g_face(rng) };
-                let mut c = json!({"kind": "write", "f0": f0, "hist": hist, "cuts": rand_cuts(rng, len)});
+                let mut c = json!({"kind": "write", "f0": f0, "hist": hist, "cuts": rand_cuts(rng, len), "sink": sink});
                 if known {
-                    c["inexpressible"] = json!(true);
+                    c["known_class"] = json!(["sgr-inexpressible"]);
                 }
                 v.push(c);
             }
